@@ -167,3 +167,8 @@ impl Hkdf<Sha1> {
             old(okm)@.len() <= 5100 ==> r is Ok,
     { unimplemented!() }
 }
+
+/// Option::map_or
+pub assume_specification<T, U, F: FnOnce(T) -> U>[ Option::<T>::map_or ](o: Option<T>, default: U, f: F) -> (r: U)
+    requires o matches Some(t) ==> f.requires((t,)),
+    ensures match o { Some(t) => f.ensures((t,), r), None => r == default };
